@@ -23,6 +23,7 @@ def run(ctx):
     lib_ibd.ancestry_append(ctx, P)
     lib_ibd.widening(ctx, P, tus=["tables"])
     lib_module.options_plumbing(ctx, P, funcs={"TableCollection_ibd_segments_within", "TableCollection_ibd_segments_between"})
+    lib_module.flags_consumed(ctx, P, funcs={"TableCollection_ibd_segments_within", "TableCollection_ibd_segments_between"})
     lib_module.array_flags(ctx, P, only=ms)
     lib_module.parsed_used(ctx, P, only=ms)
     lib_err.discipline(ctx, P, ["tables"], funcs={f.name for f in P.tus["tables"].funcs.values() if "ibd" in f.name or "identity_segments" in f.name})
